@@ -148,6 +148,8 @@ def run_schedule(prefix, npart, rseed):
         lockmod.randrange = old_rr
         ecmod.randrange = old_err[0]
         shutil.rmtree(root, ignore_errors=True)
+    global LAST_HOLDS
+    LAST_HOLDS = list(sched.holds)
     return trace, status, sched.events
 
 
@@ -256,12 +258,16 @@ def analyse_fmmu(choices, trace, status, events, npart, res, sigs, kind):
                                           for st, p, op, d in events])
 
 
-def preemptions(trace_prefix):
+LAST_HOLDS = []
+
+
+def preemptions(trace_prefix, holds=()):
     n = 0
     for i in range(1, len(trace_prefix)):
         prev = trace_prefix[i - 1][0]
         cur, enabled = trace_prefix[i]
-        if cur != prev and prev in enabled:
+        if cur != prev and prev in enabled and \
+                not (i < len(holds) and prev in holds[i]):
             n += 1
     return n
 
@@ -309,20 +315,21 @@ def judge(events, npart):
                 return "detach-while-others-active", (
                     f"participant {pid} detached the dispatcher (installed "
                     f"by {detail}) while {sorted(others)} was running or "
-                    f"installing")
+                    f"installing"), set(others)
             attached = False
         elif op == "remove" and str(detail).endswith("/programs"):
             others = (set(running) | installing) - {pid}
             if others and pinned:
                 return "unpin-while-others-active", (
                     f"participant {pid} removed the program table pin while "
-                    f"{sorted(others)} was running or installing")
+                    f"{sorted(others)} was running or installing"), \
+                    set(others)
             pinned = False
         elif op == "running-begin":
             if not attached or not pinned:
                 return "running-without-dispatcher", (
                     f"participant {pid} runs with attached={attached} "
-                    f"pinned={pinned}")
+                    f"pinned={pinned}"), {pid}
             for q, d in running.items():
                 if d["ethertype"] == detail["ethertype"]:
                     return "same-ethertype", (
@@ -341,7 +348,7 @@ def judge(events, npart):
                 "detach", "remove"):
             return "running-without-dispatcher", (
                 f"after {op} by {pid}: {sorted(running)} still running with "
-                f"attached={attached} pinned={pinned}")
+                f"attached={attached} pinned={pinned}"), set(running)
         if op == "rmdir-ok" or op == "rmdir-failed":
             live_base.pop(pid, None)
     return None
@@ -362,6 +369,7 @@ def run_shard(params):
         seen.add(prefix)
         k += 1
         trace, status, events = run_schedule(prefix, npart, 7)
+        holds = LAST_HOLDS
         choices = tuple(c for c, _ in trace)
         # children: deviate at every later position; the subtrees below
         # the root are divided among the shards
@@ -374,7 +382,7 @@ def run_shard(params):
                     continue
                 newp = choices[:i] + (alt,)
                 tp = list(trace[:i]) + [(alt, enabled)]
-                if preemptions(tp) <= budget and newp not in seen:
+                if preemptions(tp, holds) <= budget and newp not in seen:
                     stack.append(newp)
         if not prefix and params["shard"] != 0:
             continue
@@ -458,11 +466,18 @@ def analyse(choices, trace, status, events, npart, res, sigs, kind):
                    "running-without-dispatcher", "participant-failed"):
             # was a starter let in between a leaver's rmdir and its
             # detach / unpin?
+            # (the recorded mechanism: every participant harmed is a
+            # starter that took the directory - its rename succeeded - after
+            # the leaver's rmdir; somebody harmed who never installed got in
+            # another way)
+            victims = bad[2] if len(bad) > 2 else set()
             order = [(p, op) for _, p, op, _ in events]
             for i, (p, op) in enumerate(order):
                 if op == "rmdir-ok":
                     later = order[i + 1:]
-                    if any(o == "rename-ok" and q != p for q, o in later) \
+                    starters = {q for q, o in later
+                                if o == "rename-ok" and q != p}
+                    if starters and victims <= starters | {p} \
                             and any(o in ("detach", "remove") and q == p
                                     for q, o in later):
                         key = "starter-installs-between-rmdir-and-detach"
